@@ -1,0 +1,12 @@
+//go:build verif
+
+// Contracts for the verification machinery in /verif (comment-only file; compiled only with -tags verif).
+package global
+
+//@ func run
+//@ prop C12
+//@ modifies *
+//@ assume driver-passes-nonnil-config (not (= (local conf) nil))
+//@ focus out-of-scope (not (callres "IsPkgInScope"))
+//@ ensures silent-when-out-of-scope (= (calls "effect:") 0)
+//@ ensures empty-result-when-out-of-scope (and (= (len result0) 0) (isnil result1))
